@@ -234,13 +234,18 @@ def main():
             "name": "sa",
             "path": "/verif/sa",
             "serves_properties": sorted(CLAIMS),
-            "kind_free_text": "repository-specific static analysis on CPython ASTs: project index + call graph (CHA), "
-                              "guard/dominance walker, integer-region folding, def-use provenance, pattern-DSL "
-                              "extraction with own NFA/DFA product exploration, JSON writer/reader schema extraction",
+            "kind_free_text": "repository-specific static analysis on CPython ASTs: project index + call graph (CHA), helper "
+                              "inlining / normalisation into views, guard/dominance walker, def-use provenance, order typestate, "
+                              "an abstract interpreter for the repo's Python subset (symbolic objects, linear forms, uninterpreted "
+                              "terms, oracle-enumerated branches, external calls recorded as effects) used to evaluate decision "
+                              "sites, accumulators, the regex engine, the matcher's control logic, the report writer/reader and "
+                              "the renderers over stated finite abstract domains; pattern-DSL extraction with own NFA/DFA product "
+                              "exploration; JSON writer/reader schema extraction",
         }],
         "checks": checks,
         "not_applicable": na,
-        "notes": "Static analysis only; nothing from /repo is imported or executed by any check. exit 2 = "
+        "notes": "Static analysis only; nothing from /repo is imported or executed by CPython in any check (sources are parsed and, "
+                 "where a rule asks for meaning, interpreted abstractly by sa/absint.py; DESIGN.md section 12). exit 2 = "
                  "ANALYSIS-ERROR (no verdict). Known findings: /verif/known_findings.json.",
     }
     (VERIF / "MANIFEST.json").write_text(json.dumps(manifest, indent=1) + "\n")
